@@ -141,7 +141,10 @@ func c18Layout(r *rand.Rand) intoto.Layout {
 		}
 		return out
 	}
-	l := intoto.Layout{Type: "layout", Expires: "{A}", Readme: c18Text(r) + "{A}{B}", Keys: map[string]intoto.Key{"{A}": {KeyID: "{A}", KeyType: "{B}", Scheme: c18Text(r), KeyVal: intoto.KeyVal{Public: "{A}"}}}}
+	l := intoto.Layout{Type: "layout", Expires: "{A}", Readme: c18Text(r) + "{A}{B}", Keys: map[string]intoto.Key{"{A}": {KeyID: "{A}", KeyType: "{B}", Scheme: c18Text(r), KeyVal: intoto.KeyVal{Public: "{A}"}}},
+		// every other member of a layout: the certificate authorities stay as they are, too
+		RootCas:         map[string]intoto.Key{"{B}": {KeyID: "{B}", KeyType: "{A}", Scheme: c18Text(r), KeyVal: intoto.KeyVal{Public: "{B}", Certificate: "{A}{B}"}}},
+		IntermediateCas: map[string]intoto.Key{"{A}{B}": {KeyID: "{A}{B}", KeyType: "ecdsa", Scheme: "{A}", KeyVal: intoto.KeyVal{Certificate: c18Text(r) + "{B}"}}}}
 	for i, n := 0, 1+r.Intn(3); i < n; i++ {
 		st := gen.Step(fmt.Sprintf("step{A}%d", i), 1, []string{"{A}", c18Text(r)}, rules(), rules())
 		st.ExpectedCommand = words()
